@@ -1,2 +1,90 @@
-(* Properties/C22.v — placeholder while the proofs are being written *)
-From GV Require Import Lib.Tactics PathDB.Iter.
+(* Properties/C22.v — Flat-state iterators enumerate exactly the live entries.
+   Property theorems only; each is closed by a lemma of PathDB/IterFast.v,
+   PathDB/IterBinary.v or PathDB/IterProofs.v, about the model PathDB/Iter.v of
+   /repo/triedb/pathdb/iterator{,_binary,_fast}.go (same design:
+   /repo/core/state/snapshot/iterator*.go).
+
+   A stack is ANY list of state sets, newest first (diff layers, then the disk
+   layer's buffer and the disk contents); [wf_stack] only says each set is a map
+   listed in ascending key order.  [flatten] (the specification) is the
+   newest-wins fold; [live_entries live s seek] are its entries with key >= seek
+   whose value is live.  [Ok] in the conclusions also says: no index panic, no
+   "not found" error, and every fuel bound of the model suffices. *)
+From GV Require Import Lib.Tactics PathDB.Iter PathDB.IterProofs PathDB.IterFast PathDB.IterBinary.
+From Coq Require Import Sorted.
+
+(* the fast (priority-merge) iterator, for any number of layers, any contents,
+   any seek position: exactly the non-nil entries of the newest-wins view *)
+Theorem C22_fast_iter_spec : forall (s : stack) (seek : key),
+  wf_stack s -> fast_iter s seek = Ok (live_entries live_nonnil s seek).
+Proof. exact fast_iter_spec. Qed.
+Print Assumptions C22_fast_iter_spec.
+
+(* the binary (recursive 2-way merge) iterator: exactly the non-empty entries *)
+Theorem C22_binary_iter_spec : forall (s : stack) (seek : key),
+  wf_stack s -> s <> [] -> binary_iter s seek = Ok (live_entries live_nonempty s seek).
+Proof. exact binary_iter_spec. Qed.
+Print Assumptions C22_binary_iter_spec.
+
+(* under the "nil means deleted" contract (no empty non-nil blob in any state
+   set) the two iterators agree *)
+Theorem C22_fast_eq_binary : forall (s : stack) (seek : key),
+  wf_stack s -> s <> [] -> canonical s -> fast_iter s seek = binary_iter s seek.
+Proof.
+  intros s seek W Hne C.
+  rewrite fast_iter_spec, binary_iter_spec, live_agree; auto.
+Qed.
+Print Assumptions C22_fast_eq_binary.
+
+(* what the specification list is: (k, b) is enumerated iff k >= seek and the
+   newest state set that knows k holds the live blob b ... *)
+Theorem C22_live_entries_meaning : forall live (s : stack) (seek k : key) (b : list N),
+  wf_stack s ->
+  (In (k, b) (live_entries live s seek) <->
+   ((seek <= k)%N /\ lookup_first k s = Some (Some b) /\ live (Some b) = true)).
+Proof. exact live_entries_meaning. Qed.
+Print Assumptions C22_live_entries_meaning.
+
+(* ... in strictly ascending hash order, hence without duplicates *)
+Theorem C22_output_strictly_ascending : forall live (s : stack) (seek : key),
+  wf_stack s -> StronglySorted N.lt (map fst (live_entries live s seek)).
+Proof. exact live_entries_ascending. Qed.
+Print Assumptions C22_output_strictly_ascending.
+
+(* the lookup the binary iterator uses for values (layer.account through the
+   parents) reads the same newest-wins view *)
+Theorem C22_flatten_is_newest_wins : forall (s : stack) (k : key),
+  wf_stack s ->
+  lookup_stack k s = match lookup k (flatten s) with Some v => v | None => None end.
+Proof. intros s k W. rewrite lookup_stack_first, flatten_lookup; auto. Qed.
+Print Assumptions C22_flatten_is_newest_wins.
+
+(* Go's sort.Search as used by the seek and by fastIterator.next: the result is
+   bracketed by a probed false and a probed true position (this is what makes
+   the [clash] side effect of next's predicate reliable) *)
+Theorem C22_sort_search_brackets : forall n (f : nat -> option bool),
+  (forall h, h < n -> f h <> None) ->
+  exists r pr, sort_search n f = Ok (r, pr) /\ r <= n /\
+    (r = 0 \/ (f (r - 1) = Some false /\ In (r - 1) pr)) /\
+    (r = n \/ (f r = Some true /\ In r pr)) /\ Forall (fun p => p < n) pr.
+Proof. exact sort_search_spec. Qed.
+Print Assumptions C22_sort_search_brackets.
+
+(* non-vacuity: a 4-set stack with a tombstone shadowing older entries, an empty
+   buffer, clashes on every key; hypotheses hold and the iterators return the
+   expected lists *)
+Example C22_nonvacuous :
+  let s1 : stack :=
+    [ [(1, Some [1]); (3, None)];
+      [(1, Some [2]); (2, Some [5]); (3, Some [7])];
+      [];
+      [(0, Some [9]); (3, Some [8]); (4, Some [4])] ]%N in
+  wf_stack s1 /\ s1 <> [] /\ canonical s1 /\
+  fast_iter s1 1%N = Ok [(1, [1]); (2, [5]); (4, [4])]%N /\
+  binary_iter s1 1%N = Ok [(1, [1]); (2, [5]); (4, [4])]%N /\
+  live_entries live_nonnil s1 0%N = [(0, [9]); (1, [1]); (2, [5]); (4, [4])]%N.
+Proof.
+  cbv zeta. split; [|split; [discriminate|split; [|vm_compute; auto]]].
+  - repeat (constructor; try reflexivity).
+  - repeat (constructor; try discriminate).
+Qed.
